@@ -30,13 +30,21 @@ def repo() -> str:
     return os.environ.get("JASM_REPO", "/repo")
 
 
+class HarnessError(Exception):
+    """the harness's own call of the public API does not fit the tree under check: undecided, never a violation"""
+
+
 def run_real(jobs: Any, timeout: int = 300) -> Any:
     env = dict(os.environ)
     env["PYTHONPATH"] = os.path.join(repo(), "src")
     env["PYTHONDONTWRITEBYTECODE"] = "1"
+    from vf import alpha
+    env = alpha.env_for(os.path.join(repo(), "src"), env)
     py = "/venv/bin/python" if os.path.exists("/venv/bin/python") else sys.executable
     p = subprocess.run([py, os.path.join(ROOT, "vf", "replay_runner.py")], input=json.dumps(jobs), text=True,
                        capture_output=True, env=env, timeout=timeout, cwd="/tmp")
+    if p.returncode == 4:
+        raise HarnessError(p.stderr[-600:])
     if p.returncode != 0:
         raise RuntimeError("replay runner failed: " + p.stderr[-2000:])
     return json.loads(p.stdout)
@@ -309,7 +317,7 @@ def confirm(ob: Dict[str, Any]) -> Tuple[Optional[Dict[str, Any]], str]:
         # a concrete call of a real function with the expected result
         job = {"kind": "call", "target": rp["target"], "args": rp.get("args", []), "kwargs": rp.get("kwargs", {})}
         r = run_real(job)
-        if r != {"result": rp.get("expect")}:
+        if (("error" not in r) if rp.get("expect") == "<raises>" else (r != {"result": rp.get("expect")})):
             return {"call": job, "real": r, "expected": rp.get("expect"), "found_by": "concrete representative"}, \
                 f"{rp['target']} returned {r} where {rp.get('expect')!r} is required"
         return None, "the un-instrumented function returns the expected value on this input"
@@ -402,6 +410,8 @@ def rerun(prop: str, path: str) -> int:
     if "fault_job" in ci:
         env = dict(os.environ)
         env["PYTHONPATH"] = os.path.join(repo(), "src")
+        from vf import alpha
+        env = alpha.env_for(os.path.join(repo(), "src"), env)
         p = subprocess.run(["/venv/bin/python", os.path.join(ROOT, "vf", "fault_runner.py")], input=json.dumps([ci["fault_job"]]), text=True,
                            capture_output=True, env=env, cwd="/tmp")
         out = json.loads(p.stdout)[0]["outcome"] if p.returncode == 0 else p.stderr[-400:]
@@ -415,7 +425,7 @@ def rerun(prop: str, path: str) -> int:
     if "call" in ci:
         r = run_real(ci["call"])
         print(json.dumps({"real": r, "expected": ci.get("expected")}))
-        if r != {"result": ci.get("expected")}:
+        if (("error" not in r) if ci.get("expected") == "<raises>" else (r != {"result": ci.get("expected")})):
             print(f"VIOLATION property={prop} replay={path}")
             return 1
         print("no disagreement on this tree")
